@@ -321,5 +321,13 @@ def run(ctx: Ctx) -> None:
     rule_callers(ctx)
     rule_barrier(ctx)
     rule_ordered(ctx)
+    # no look-ahead needs the whole batch of a timestamp to be drawn before any of its handlers runs: the multiplexer must hand out
+    # every event that is due (shared with C12.3, reported here as C03.7)
+    from . import c12
+    ctx.rule_map = {"C12.3": "C03.7"}
+    try:
+        c12.rule_mux(ctx)
+    finally:
+        ctx.rule_map = {}
     ctx.assume("strategy handlers covered by the determinism clause do not suspend (the property's own premise)")
     ctx.assume("bar sources yield events in non-decreasing time order")
